@@ -112,7 +112,7 @@ func (p *FunctionBuilder) CreateFunction(m *bmodel.MethodEntry) (*gmodel.Functio
 
 	names := map[string]bool{"err": m.RetError()}
 	for _, v := range append([]gmodel.Var{srcVar, dstVar}, additionalArgsVars...) {
-		if names[v.Name] && v.Name != "_" {
+		if names[v.Name] {
 			// Among them are the names this tool gives to what the interface leaves unnamed.
 			return nil, logger.Errorf("%v: the name %v would be declared twice in the function", p.fset.Position(m.Method.Pos()), v.Name)
 		}
@@ -162,7 +162,8 @@ func (p *FunctionBuilder) CreateFunction(m *bmodel.MethodEntry) (*gmodel.Functio
 // If the types.Var doesn't have a name, defName is used instead.
 func (p *FunctionBuilder) createVar(v *types.Var, defName string) gmodel.Var {
 	name := v.Name()
-	if name == "" {
+	if name == "" || name == "_" {
+		// The blank identifier cannot be referred to: the function body needs a name.
 		name = defName
 	}
 
